@@ -20,8 +20,8 @@ RULE = ('cases = (curve, knee set K, ordered expected set E, tolerance / strateg
         'point is matched and at least one is not, or |K| != |E| (the strategies select different sides)')
 ASSUMPTIONS = ['nearest-neighbour ties may be broken either way (every choice explored by the reference)',
                'tolerance comparison uses exact rational distances; the alphabet makes them exactly representable']
-BOUNDS = {'quick': {'curves': 'n=3: y in {0,1,2}, gaps {1,2}; n=4: y{0,1,2} unit gaps and y{0,1} gaps{1,2}; n=5: y{0,1} unit gaps (|E|<=2), y{0,1,2} unit gaps (|E|=1)', 'E': 'ordered, size<=2', 't': '{0,1/4,1/2}', 'large inputs': 'n=16,20 with (|K|,|E|) in {(8,8),(10,8),(4,16),(16,4)}: perfect detection perturbed in <=2 positions (bounded deviation), t in {0.02,0.1}'},
-          'thorough': {'curves': 'n=3,4: y{0,1,2} gaps{1,2} (|E|<=3); n=5: y{0,1,2} unit gaps (|E|<=3), y{0,1} gaps{1,2} (|E|<=2); n=6: y{0,1} unit gaps (|E|<=2)', 'E': 'ordered', 't': '{0,1/4,1/2,1}'}}
+BOUNDS = {'quick': {'curves': 'n=3: y in {0,1,2}, gaps {1,2}; n=4: y{0,1,2} unit gaps and y{0,1} gaps{1,2}; n=5: y{0,1} unit gaps (|E|<=2), y{0,1,2} unit gaps (|E|=1)', 'E': 'ordered, size<=2', 't': '{0,1/4,1/2}', 'score functions': 'every confusion matrix with entries in {0,1,2,3,1000,2^15,2^16+1,2^20,2^24} a curve can produce (tn>=tp, K and E non-empty)', 'trace-sized curves': 'n=2^20, 16384 knees: perfect detection and detection shifted by one sample, whole cm->scores pipeline', 'large inputs': 'n=16,20 with (|K|,|E|) in {(8,8),(10,8),(4,16),(16,4)}: perfect detection perturbed in <=2 positions (bounded deviation), t in {0.02,0.1}'},
+          'thorough': {'curves': 'n=3,4: y{0,1,2} gaps{1,2} (|E|<=3); n=5: y{0,1,2} unit gaps (|E|<=3), y{0,1} gaps{1,2} (|E|<=2); n=6: y{0,1} unit gaps (|E|<=2)', 'E': 'ordered', 't': '{0,1/4,1/2,1}', 'score functions': 'as quick', 'trace-sized curves': 'n=2^18..2^22'}}
 TECHNIQUE = 'bounded-exhaustive enumeration of curves x knee sets x ordered expected sets on the real scoring functions against a reference matcher exploring all tie choices'
 LEVEL_TEXT = ('Model checking: every knee set and every small ordered expected set on every small curve; confusion-matrix identities, greedy one-to-one TP, '
               'nearest-neighbour error means per strategy, ranges of accuracy/F1/MCC and the perfect-detection clauses checked on each.')
@@ -48,7 +48,108 @@ def units(tier, seed):
     for n, nk, ne in big:
         for k in range(16):
             u.append(('large', n, nk, ne, k, 16, tier))
+    # the score functions over a grid of confusion matrices whose entries range up to trace-sized counts
+    for i in range(len(ENT)):
+        u.append(('cmgrid', i))
+    # the whole pipeline (cm -> scores) on trace-sized curves: perfect detection and detection shifted by one sample
+    for n, step in ([(1 << 20, 64)] if tier == 'quick' else [(1 << 20, 64), (1 << 21, 64), (1 << 22, 256), (1 << 18, 8)]):
+        u.append(('bigcurve', n, step))
     return u
+
+
+ENT = (0, 1, 2, 3, 1000, 2 ** 15, 2 ** 16 + 1, 2 ** 20, 2 ** 24)
+
+
+def check_scores(tp, fp, fn, tn, m=None):
+    """accuracy / f1score / mcc on one confusion matrix (the int64 array cm returns) against exact integer arithmetic."""
+    m = np.array([[tp, fp], [fn, tn]]) if m is None else m
+    case = {'oracle': 'cmgrid', 'cm': [[tp, fp], [fn, tn]]}
+    key = 'cm=[[%d,%d],[%d,%d]]' % (tp, fp, fn, tn)
+    n = tp + fp + fn + tn
+    out = []
+    try:
+        acc, f1 = float(ev.accuracy(m)), float(ev.f1score(m))
+        ea, ef = float(Fraction(tp + tn, n)), float(Fraction(2 * tp, 2 * tp + fp + fn))
+        if not (0.0 <= acc <= 1.0) or not (0.0 <= f1 <= 1.0):
+            out.append(Failure('evaluation.accuracy/f1score', 'out-of-range', key, case, 'accuracy=%r f1=%r' % (acc, f1), (n, 0)))
+        elif abs(acc - ea) > 1e-12 or abs(f1 - ef) > 1e-12:
+            out.append(Failure('evaluation.accuracy/f1score', 'wrong-value', key, case, 'accuracy=%r (%r) f1=%r (%r)' % (acc, ea, f1, ef), (n, 0)))
+        elif fp == 0 and fn == 0 and (acc != 1.0 or f1 != 1.0):
+            out.append(Failure('evaluation.accuracy/f1score', 'perfect-detection-not-1', key, case, 'accuracy=%r f1=%r' % (acc, f1), (n, 0)))
+    except Exception as e:  # noqa: BLE001
+        out.append(Failure('evaluation.accuracy/f1score', lib.exc_kind(e), key, case, repr(e), (n, 0)))
+    den = (tp + fp) * (tp + fn) * (tn + fp) * (tn + fn)
+    if den != 0:
+        try:
+            mc = float(ev.mcc(m))
+            e = (tp * tn - fp * fn) / math.sqrt(den)
+            if not (-1.0 - 1e-12 <= mc <= 1.0 + 1e-12):
+                out.append(Failure('evaluation.mcc', 'out-of-range', key, case, 'mcc=%r (exact %r)' % (mc, e), (n, 0)))
+            elif abs(mc - e) > 1e-12:
+                out.append(Failure('evaluation.mcc', 'wrong-value', key, case, 'mcc=%r expected %r' % (mc, e), (n, 0)))
+        except Exception as e:  # noqa: BLE001
+            out.append(Failure('evaluation.mcc', lib.exc_kind(e), key, case, repr(e), (n, 0)))
+    return out
+
+
+def run_cmgrid(unit, res):
+    tp = ENT[unit[1]]
+    for fp in ENT:
+        for fn in ENT:
+            for tn in ENT:
+                # matrices a curve can produce: K and E non-empty, |K| + |E| <= n  (<=> tn >= tp)
+                if tp + fp == 0 or tp + fn == 0 or tn < tp:
+                    continue
+                fs = check_scores(tp, fp, fn, tn)
+                res.count('evaluations', 3)
+                res.count('states')
+                res.count('transitions', 3)
+                res.count('cm_grid_matrices')
+                for f in fs:
+                    res.fail(f)
+                if not fs:
+                    res.count('traces', 3)
+                if fp and fn and tp:
+                    res.count('nontrivial')
+    res.notes['cm_grid_entry_max'] = max(ENT)
+
+
+def check_bigcurve(n, step, shift):
+    x = np.arange(n, dtype=float)
+    pts = np.stack([x, 1.0 / (1.0 + x)], axis=1)
+    K = np.arange(5, n - 1, step)
+    E = pts[K + shift]
+    case = {'oracle': 'bigcurve', 'n': n, 'step': step, 'shift': shift}
+    key = 'x=0..%d y=1/(1+x) knees=5+%d*j expected=points[knees+%d] t=0' % (n - 1, step, shift)
+    try:
+        m = np.asarray(ev.cm(pts, K, E, 0.0))
+        tp, fp, fn, tn = [int(v) for v in m.ravel()]
+    except Exception as e:  # noqa: BLE001
+        return [Failure('evaluation.cm', lib.exc_kind(e), key, case, repr(e), (n, 0))]
+    exp = [len(K), 0, 0, n - len(K)] if shift == 0 else [0, len(K), len(K), n - 2 * len(K)]
+    if [tp, fp, fn, tn] != exp:
+        return [Failure('evaluation.cm', 'accounting-identity-broken', key, case, 'cm=%s expected %s' % (m.tolist(), exp), (n, 0))]
+    out = check_scores(tp, fp, fn, tn, m)
+    for f in out:
+        f.case, f.key = case, key
+    return out
+
+
+def run_bigcurve(unit, res):
+    _, n, step = unit
+    for shift in (0, 1):
+        fs = check_bigcurve(n, step, shift)
+        res.count('evaluations', 4)
+        res.count('states')
+        res.count('transitions', (n - 6) // step + 4)
+        res.count('trace_sized_curves')
+        for f in fs:
+            res.fail(f)
+        if not fs:
+            res.count('traces', 4)
+        if shift:
+            res.count('nontrivial')
+    res.notes['big_curve_n_max'] = n
 
 
 def tp_set(kx, E, dx, t):
@@ -248,6 +349,10 @@ def run_large(unit, res):
 def run_unit(unit, res):
     if unit[0] == 'large':
         return run_large(unit, res)
+    if unit[0] == 'cmgrid':
+        return run_cmgrid(unit, res)
+    if unit[0] == 'bigcurve':
+        return run_bigcurve(unit, res)
     prof, n, k, K, emax, xs0, tier = unit
     P = curves.get(prof)
     ts = (0.0, 0.25, 0.5) if tier == 'quick' else (0.0, 0.25, 0.5, 1.0)
@@ -280,5 +385,10 @@ def run_unit(unit, res):
 
 
 def replay(case):
+    if case.get('oracle') == 'cmgrid':
+        (tp, fp), (fn, tn) = case['cm']
+        return check_scores(tp, fp, fn, tn)
+    if case.get('oracle') == 'bigcurve':
+        return check_bigcurve(case['n'], case['step'], case['shift'])
     _, fs = check_case(case['x'], case['y'], case['knees'], [tuple(e) for e in case['expected']], case['ts'])
     return fs
